@@ -359,7 +359,7 @@ func TestCheck(t *testing.T) {
 		"harnesses":           all,
 		"exhaustive":          exhaustive,
 		"samples":             samples,
-		"rule":                "every schedule of the harness threads with at most preemption_bound preemptions (DFS, replay-from-scratch per schedule; points at every non-trivial RWMutex operation, internal page write/truncate and client WAL write); distinct_nontrivial = distinct (harness, outcome) classes where an outcome is the position the snapshot/export reported or its error class",
+		"rule":                "every schedule of the harness threads with at most preemption_bound preemptions (DFS, replay-from-scratch per schedule; points at every non-trivial RWMutex operation, internal page write/truncate, every page of the snapshot / export output as its consumer takes it, between the writer's two transactions, and client WAL write); distinct_nontrivial = distinct (harness, outcome) classes where an outcome is the position the snapshot/export reported or its error class",
 	}
 	run.Finish(cov, []string{
 		"Timer firings are ordered after all enabled computation (the fake clock advances only when no thread can be released); busy handlers retry on the fake clock.",
